@@ -68,7 +68,8 @@ QueryFrameOK == (Rec.op \in {"expect", "expect_poly", "overlap", "prob", "entrop
     /\ Rec.pre1 = Rec.pre
     /\ Has("other1") => Rec.other1 = Rec.other
 \* explicit refusals are not reported values
-RefuseOK == Has("refused") => Rec.refused \in {"NotImplementedError", "ValueError"}
+\* (the only documented refusal among the queries: a state argument on a mixed receiver)
+RefuseOK == Has("refused") => (Rec.refused = "NotImplementedError" /\ Has("mixed_receiver") /\ Rec.mixed_receiver = TRUE)
 
 \* ---- C08: entropy
 EntropyOK == (Rec.op = "entropy" /\ Has("vals")) =>
